@@ -125,7 +125,7 @@ def mk_replay(zero, a, b, idx, r, fy, fx, fail):
 def run(ctx):
     rng = ctx.rng
     ctx.check_theorems()
-    ctx.check_generated(['qlat'])
+    ctx.check_generated(['qlat', 'vidx'])
     exprs, meta = [], []
     for k in range(ctx.n(150, 1500)):
         integer = (k % 3 == 0)
